@@ -54,6 +54,10 @@ pub enum Trigger {
     Revoke,
     Restart,
     Complete,
+    /// CommissioningComplete sent over the PASE session (after AddNOC bound it to the new
+    /// fabric) instead of over a CASE session: either it is refused and everything is rolled
+    /// back later, or - if it is answered OK - everything must have been made permanent.
+    CompleteOverPase,
     None,
 }
 
@@ -377,6 +381,10 @@ pub fn build(sc: &Scenario) -> Built {
             trigger_at = Some(steps.len());
             steps.push(Step::Restart);
         }
+        Trigger::CompleteOverPase => {
+            trigger_at = Some(steps.len());
+            steps.push(Step::Complete { ctx: SCtx::Pase });
+        }
         Trigger::Complete => {
             match kind {
                 AttemptKind::UpdateNoc | AttemptKind::CaseSettings => {
@@ -436,10 +444,15 @@ pub fn gen_scenario(rng: &mut Rng) -> Scenario {
         Trigger::Restart,
         Trigger::Complete,
         Trigger::Complete,
+        Trigger::CompleteOverPase,
         Trigger::None,
     ]);
     if !precommission && matches!(trigger, Trigger::ForceExpireByOtherAdmin | Trigger::Revoke) {
         trigger = Trigger::ForceExpire;
+    }
+    if matches!(kind, AttemptKind::UpdateNoc | AttemptKind::CaseSettings) && trigger == Trigger::CompleteOverPase {
+        // no PASE session exists in these attempts
+        trigger = Trigger::Complete;
     }
     let kv_fail_at = if rng.chance(1, 4) {
         Some(1 + rng.usize(8))
@@ -635,7 +648,7 @@ pub fn judge(rep: &mut Report, sc: &Scenario, b: &Built, r: &WorldResult, kv: &c
     let last = r.log.last().unwrap();
     let fin = &last.dev;
     let trig = b.trigger_at.and_then(|i| log_at(&r.log, i));
-    let completed = matches!(sc.trigger, Trigger::Complete) && trig.map(|l| l.success).unwrap_or(false);
+    let completed = matches!(sc.trigger, Trigger::Complete | Trigger::CompleteOverPase) && trig.map(|l| l.success).unwrap_or(false);
     let armed_once = r
         .log
         .iter()
@@ -676,14 +689,14 @@ pub fn judge(rep: &mut Report, sc: &Scenario, b: &Built, r: &WorldResult, kv: &c
     } else if armed_once {
         // ---- R1 / R5 rollback: everything the attempt changed is undone ----
         let kv_failed = sc.kv_fail_at.map(|k| k <= r.kv_log_len).unwrap_or(false);
-        let rule = if matches!(sc.trigger, Trigger::Complete) { "R5-failed-completion" } else { "R1-rollback" };
+        let rule = if matches!(sc.trigger, Trigger::Complete | Trigger::CompleteOverPase) { "R5-failed-completion" } else { "R1-rollback" };
         // Where did the injected KV failure land? (first / second ... write of the completing
         // command, or elsewhere)
         let kv_where = if kv_failed {
             let ops = kv.log();
             let failed = ops.iter().find(|o| o.failed);
             match (failed, b.trigger_at) {
-                (Some(f), Some(t)) if f.step as usize == t && matches!(sc.trigger, Trigger::Complete) => {
+                (Some(f), Some(t)) if f.step as usize == t && matches!(sc.trigger, Trigger::Complete | Trigger::CompleteOverPase) => {
                     // which record of the commit could not be written (the position of the write
                     // inside the step is not stable: a resumption-cache flush may interleave)
                     let rec = if f.key < rs_matter::persist::BASIC_INFO_KEY {
